@@ -44,6 +44,7 @@ class FnSpec:
     ret_fresh = None  # type tag if the result is a freshly allocated object
     ret_fields = ()  # heap fields of the fresh result that the ensures constrains
     ret_hint = None
+    ret_kind = "ref"
     may_raise = True
     loops = {}
     calls = {}
@@ -130,14 +131,16 @@ def apply_contract(spec, fnode):
         out = []
         # normal return
         s = st.copy()
-        if spec.ret_fresh is not None:
+        if spec.ret_kind == "bool":
+            r = None
+        elif spec.ret_fresh is not None:
             r = s.alloc(spec.ret_fresh, "ret_" + spec.name().split("/")[-1])
             for fld in spec.ret_fields:
                 s.put(fld, r, fresh("rf_" + fld.replace(":", "_"), field_sort(fld).range()))
         else:
             r = fresh("ret_" + spec.name().split("/")[-1])
             s.assume(r < s.ctr)
-        rv = V("ref", r, spec.ret_hint)
+        rv = V("ref", r, spec.ret_hint) if r is not None else vbool(fresh("retb_" + spec.name().split("/")[-1], B))
         c = Ctx(ex, pre, s, a, ghost)
         s.assume(*[f for _, f in spec.ensures_ret(c, rv)])
         s.path.append("%s:ret" % tag)
@@ -147,7 +150,9 @@ def apply_contract(spec, fnode):
         if spec.may_raise:
             s = st.copy()
             e = fresh("exc_" + spec.name().split("/")[-1])
-            s.assume(e > 2)
+            nc = fresh("ctr")
+            s.assume(e > 2, nc > e, nc >= s.ctr)
+            s.ctr = nc
             ex.user_exception_facts(s, e)
             c = Ctx(ex, pre, s, a, ghost)
             s.assume(*[f for _, f in spec.ensures_raise(c, V("ref", e))])
